@@ -121,6 +121,10 @@ pub struct RecorderSpec {
     /// hold arbitrary bytes (no exposed field depends on them)
     #[serde(default)]
     pub empty_garbage: bool,
+    /// only without a Game End: the recording stops INSIDE its last frame — this many of that frame's last
+    /// events are missing (at least the frame's first event stays); raw length consistent
+    #[serde(default)]
+    pub cut_last_frame: u8,
 }
 
 #[derive(Serialize, Deserialize, Clone, Debug, PartialEq)]
